@@ -16,12 +16,18 @@ AlphaOrd == << <<123>>, <<125>>, <<44>>, <<34, 97, 34, 58, 48>>, <<34, 98, 34, 5
 \* " \ \ud83d \ude00 \u0041 \u+041 \u004 n 0 LF    (escapes as tokens so that surrogate pairs fit; LF = a raw control character)
 AlphaEsc == << <<34>>, <<92>>, <<92, 117, 100, 56, 51, 100>>, <<92, 117, 100, 101, 48, 48>>, <<92, 117, 48, 48, 52, 49>>,
                <<92, 117, 43, 48, 52, 49>>, <<92, 117, 48, 48, 52>>, <<110>>, <<48>>, <<10>> >>
+\* " \ud800 \udbff \udc00 \udfff \ud83d \ude00 \u0041 a   (surrogate escapes at the edges of both ranges: U+10000,
+\* U+103FF, U+10FC00, U+10FFFF (plane 16), U+1F600; every unpaired / reversed combination)
+AlphaSur == << <<34>>, <<92, 117, 100, 56, 48, 48>>, <<92, 117, 100, 98, 102, 102>>, <<92, 117, 100, 99, 48, 48>>,
+               <<92, 117, 100, 102, 102, 102>>, <<92, 117, 100, 56, 51, 100>>, <<92, 117, 100, 101, 48, 48>>,
+               <<92, 117, 48, 48, 52, 49>>, <<97>> >>
 \* atoms for the serialiser model: [ ] { } , : and strings / numbers / words exercising every escaping rule
 AlphaSer == << <<91>>, <<93>>, <<123>>, <<125>>, <<44>>, <<58>>,
                <<34, 92, 117, 48, 48, 48, 48, 92, 110, 47, 34>>,          \* "\u0000\n/"
                <<34, 92, 34, 92, 92, 92, 117, 48, 48, 49, 102, 34>>,      \* "\"\\\u001f"
                <<34, 92, 117, 100, 56, 51, 100, 92, 117, 100, 101, 48, 48, 127, 32, 34>>,  \* U+1F600 DEL SPACE
                <<34, 92, 98, 92, 102, 92, 114, 92, 116, 233, 8232, 34>>,  \* "\b\f\r\t" e-acute U+2028
+               <<34, 92, 117, 48, 48, 49, 102, 32, 127, 128, 159, 160, 34>>,  \* "\u001f" SPACE DEL U+0080 U+009F U+00A0 (raw)
                <<45, 48>>, <<49, 101, 45, 55>>, <<102, 97, 108, 115, 101>> >>
 \* { } [ ] , : " 0 SPACE    (small alphabet for the coverage run of the state machine)
 AlphaCov == << <<123>>, <<125>>, <<91>>, <<93>>, <<44>>, <<58>>, <<34>>, <<48>>, <<32>> >>
